@@ -37,6 +37,8 @@ def build_world():
         "T": U.make_conditions(mix, 0.05, 333.15, 50.0, 0.2, "molar", ("T", -25.0), "none"),
         "p_prog": U.make_conditions(mix, 0.05, 333.15, 50.0, 0.15, "weight", ("p", 0.5), "poly"),
         "syn": U.make_conditions(syn, 0.05, 333.15, 50.0, 0.3, "weight", "vac", "none"),
+        "log": U.make_conditions(mix, 0.05, 333.15, 50.0, 0.15, "weight", "vac", "log"),
+        "exp": U.make_conditions(mix, 0.05, 340.0, 50.0, 0.25, "molar", ("T", -25.0), "exp3"),
     }
     meas = {
         # built from a throw-away copy of the set: no library call may touch a world object while the world is being built
@@ -44,7 +46,8 @@ def build_world():
         "second": OPT.Measurements(data=[OPT.Measurement(x=x, t=333.15, p=U.law_value("lawB", 1, x, 333.15)) for x in (0.1, 0.3, 0.5, 0.7, 0.9)]),
     }
     comps = {"w": U.Composition(p=0.15, type="weight"), "m": U.Composition(p=0.4, type="molar"), "list": [U.Composition(p=x, type="weight") for x in (0.1, 0.5, 0.9)],
-             "m_same": U.Composition(p=0.15, type="molar"), "pure0": U.Composition(p=0.0, type="molar"), "pure1": U.Composition(p=1.0, type="molar"), "pure1w": U.Composition(p=1.0, type="weight")}
+             "m_same": U.Composition(p=0.15, type="molar"), "pure0": U.Composition(p=0.0, type="molar"), "pure1": U.Composition(p=1.0, type="molar"), "pure1w": U.Composition(p=1.0, type="weight"),
+             "list_pure": [U.Composition(p=x, type="weight") for x in (0.0, 0.5, 1.0)]}
     perms = (U.Permeance(value=2.5e-2), U.Permeance(value=3.0e-5))
     curve = U.DiffusionCurve(mixture=mix, membrane_name="M", feed_temperature=333.15, feed_compositions=[U.Composition(p=x, type="molar") for x in (0.2, 0.6)],
                              partial_fluxes=[(0.031, 0.0017), (0.052, 0.0009)], permeate_temperature=293.15)
@@ -84,6 +87,9 @@ OPS = [
     ("ideal curve synthetic UNIQUAC", lambda w: w["pv_syn"].ideal_diffusion_curve(feed_temperature=340.0, compositions=w["comps"]["list"], calculation_type="UNIQUAC")),
     ("ideal iso", lambda w: w["pv"].ideal_isothermal_process(number_of_steps=3, delta_hours=0.5, conditions=w["conds"]["T"])),
     ("ideal noniso", lambda w: w["pv"].ideal_non_isothermal_process(number_of_steps=3, delta_hours=0.5, conditions=w["conds"]["p_prog"])),
+    ("ideal noniso logarithmic programme", lambda w: w["pv"].ideal_non_isothermal_process(number_of_steps=3, delta_hours=0.5, conditions=w["conds"]["log"])),
+    ("ideal noniso exponential programme", lambda w: w["pv"].ideal_non_isothermal_process(number_of_steps=3, delta_hours=0.5, conditions=w["conds"]["exp"])),
+    ("ideal curve with pure feeds", lambda w: w["pv"].ideal_diffusion_curve(feed_temperature=333.15, compositions=w["comps"]["list_pure"], permeate_temperature=293.15)),
     ("ideal noniso synthetic", lambda w: w["pv_syn"].ideal_non_isothermal_process(number_of_steps=3, delta_hours=0.5, conditions=w["conds"]["syn"], calculation_type="UNIQUAC")),
     ("membrane permeance", lambda w: w["mem"].get_permeance(338.0, w["mix"].first_component)),
     ("membrane activation energy (regressed)", lambda w: w["mem_syn"].calculate_activation_energy(w["syn"].second_component)),
@@ -142,6 +148,7 @@ def judge_history(case):
     pristine = canon.ser(world)
     c0 = canon.canon(world)
     g0 = canon.canon(None)
+    m0 = canon.interpreter_modes()
     h0 = canon.hidden_state()
     hidden = 0
     v = []
@@ -157,7 +164,8 @@ def judge_history(case):
         if c != c0:
             where = canon.diff(pristine, canon.ser(world))
             if where is None:
-                where = "a built-in Mixtures/Components singleton changed" if canon.canon(None) != g0 else "unknown"
+                where = ("interpreter-wide switches changed: %r" % (canon.interpreter_modes(),)) if canon.interpreter_modes() != m0 else (
+                    "a built-in Mixtures/Components singleton changed" if canon.canon(None) != g0 else "unknown")
             v.append(core.viol("C20/world_changed", "operation %r (step %d of history %r) changed shared state: %s" % (OPS[i][0], step, [OPS[j][0] for j in case["ops"]], where),
                                history=case["ops"]))
             break
